@@ -5,6 +5,8 @@
 #    passes without it; 2. applies the patch to /repo, runs the named checks
 #    (quick tier), and undoes it; 3. stores patch, demo and a log under
 #    /verif/seeded/<ID>/.
+# runs against patched trees must not leave their evidence behind
+EVSAVE=/tmp/ev.save.$$; rm -rf "$EVSAVE"; cp -r /verif/evidence "$EVSAVE"; trap 'rm -rf /verif/evidence; mv "$EVSAVE" /verif/evidence' EXIT
 ID="$1"; DEMO="$2"; EXTRA="$3"; shift 3; [ "$1" = "--" ] && shift
 WT=/tmp/wt4-$ID; OUT=/tmp/out4-$ID; DST=/verif/seeded/$ID-r4
 mkdir -p "$DST/demo"; LOG="$DST/confirm.log"; : > "$LOG"
